@@ -70,6 +70,72 @@ def cases(rng, tier):
     return out
 
 
+A2_GROUPS = [
+    # label, module, coq fn, kind, table, env, domain fix (function on word)
+    ('dp_register', 'arm_data_processing_register', 'dec_arm_data_processing_register', 'opt', 'a_dpr_table', 'a_no_env', lambda w: w & ~(1 << 4)),
+    ('dp_rsr', 'arm_data_processing_register_shifted_register', 'dec_arm_data_processing_register_shifted_register', 'opt', 'a_rsr_table', 'a_no_env',
+     lambda w: (w & ~(1 << 7)) | (1 << 4)),
+    ('halfword_multiply', 'arm_halfword_multiply_and_multiply_accumulate', 'dec_arm_halfword_multiply_and_multiply_accumulate', 'opt', 'a_hmul_table', 'a_no_env', None),
+    ('saturating', 'arm_saturating_addition_and_subtraction', 'dec_arm_saturating_addition_and_subtraction', 'opt', 'a_sat_table', 'a_no_env', None),
+    ('sync', 'arm_synchronization_primitives', 'dec_arm_synchronization_primitives', 'opt', 'a_sync_table', 'a_no_env', None),
+    ('misc', 'arm_miscellaneous_instructions', 'dec_arm_miscellaneous_instructions', 'res', 'a_misc_table', 'a_misc_env', None),
+    ('extra_load_store', 'arm_extra_load_store_instructions', 'dec_arm_extra_load_store_instructions', 'opt', 'a_xls_table', 'a_no_env',
+     lambda w: ((w | (1 << 7) | (1 << 4)) | (0 if (w >> 5) & 3 else (1 << 5))) & (~(1 << 21) if not (w >> 24) & 1 and (w >> 20) & 1 else ~0)),
+    ('extra_unprivileged', 'arm_extra_load_store_instructions_unprivileged', 'dec_arm_extra_load_store_instructions_unprivileged', 'opt', 'a_xlsu_table', 'a_no_env', None),
+    ('msr_hints', 'arm_msr_immediate_and_hints', 'dec_arm_msr_immediate_and_hints', 'res', 'a_msr_table', 'a_no_env_res', None),
+    ('media', 'arm_media_instructions', 'dec_arm_media_instructions', 'opt', 'a_media_table', 'a_media_env', None),
+    ('parallel_signed', 'arm_parallel_addition_and_subtraction_signed', 'dec_arm_parallel_addition_and_subtraction_signed', 'opt', 'a_pas_table', 'a_no_env', None),
+    ('parallel_unsigned', 'arm_parallel_addition_and_subtraction_unsigned', 'dec_arm_parallel_addition_and_subtraction_unsigned', 'opt', 'a_pau_table', 'a_no_env', None),
+    ('packing', 'arm_packing_unpacking_saturation_and_reversal', 'dec_arm_packing_unpacking_saturation_and_reversal', 'opt', 'a_pack_table', 'a_no_env', None),
+    ('signed_multiply', 'arm_signed_multiply_signed_and_unsigned_divide', 'dec_arm_signed_multiply_signed_and_unsigned_divide', 'opt', 'a_smul_table', 'a_no_env', None),
+    ('unconditional', 'arm_unconditional_instructions', 'dec_arm_unconditional_instructions', 'res', 'a_uncond_table', 'a_uncond_env', None),
+    ('coprocessor', 'arm_coprocessor_instructions_and_supervisor_call', 'dec_arm_coprocessor_instructions_and_supervisor_call', 'res', 'a_cop_table', 'a_no_env_res', None),
+    ('dp_misc_routing', 'arm_data_processing_and_miscellaneous_instructions', 'dec_arm_data_processing_and_miscellaneous_instructions', 'res', 'a_dpm_table', 'a_dpm_env',
+     lambda w: w if not ((w >> 25) & 1 == 0 and (w >> 24) & 1 == 0 and (w >> 20) & 3 == 3 and (w >> 6) & 3 == 3 and (w >> 4) & 1) else w ^ (1 << 20)),
+]
+
+
+def a2_rows(table):
+    import os, re
+    src = open(os.path.join(C.VERIF, 'coq', 'theories', 'Spec', 'DecTablesA2.v')).read()
+    i = src.index(f'Definition {table} ')
+    body = src[i:src.index('].', i)]
+    return [re.sub(r'\s', '', m) for m in re.findall(r'row "([01x ]+)"', body)]
+
+
+def a2_cases(rng, tier):
+    """class selection of the further ARM groups: every table row, its one-bit neighbours, random members"""
+    out = []
+    n = 60 if tier == 'quick' else 4000
+    for (label, module, fn, kind, table, env, fix) in A2_GROUPS:
+        words = []
+        for pat in a2_rows(table):
+            assert len(pat) == 32, (table, pat)
+            for rep in range(2 if tier == 'quick' else 30):
+                w = 0
+                for ch in pat:
+                    w = (w << 1) | (int(ch) if ch in '01' else rng.getrandbits(1))
+                words.append(w)
+                if rep == 0:
+                    for k, ch in enumerate(pat):
+                        if ch in '01' and 31 - k < 28:
+                            words.append(w ^ (1 << (31 - k)))
+        words += [rng.getrandbits(32) for _ in range(n)]
+        for w in words:
+            if fix:
+                w = fix(w) & 0xFFFFFFFF
+            if kind == 'res':
+                model = f'(match {fn} {w} with Val (Some c) => [0; 1; c] | Val None => [0; 0] | Err EUndefined => [2; 6] | Err _ => [2; 7] end)'
+                spec = (f'(match eval_leaf {env} (Val None) (lookup {table} (LRet (Val None)) {w}) {w} with Val (Some c) => [0; 1; c] '
+                        f'| Val None => [0; 0] | Err EUndefined => [2; 6] | Err _ => [2; 7] end)')
+            else:
+                model = f'(match {fn} {w} with Some c => [0; 1; c] | None => [0; 0] end)'
+                spec = f'(enc_leaf_opt (lookup {table} (LRet None) {w}) {env} {w})'
+            out.append({'impl': {'kind': 'decode', 'module': module, 'instr': w}, 'model': model, 'spec': spec,
+                        'label': 'arm_' + label, 'nontrivial': True})
+    return out
+
+
 def operand_cases(rng, tier):
     import opgen
     return opgen.operand_cases(rng, tier, True)
@@ -82,4 +148,8 @@ OP_SPEC_IMPORTS = 'From ArmV Require Import Spec.Pseudocode.'
 def units():
     thms = ['C06_top_level', 'C06_multiply', 'C06_load_store_word', 'C06_branch_block', 'C06_dp_immediate']
     return [Unit('arm_groups', thms, ['Proofs/Cube.v', 'Proofs/DecodeReify.v', 'Proofs/DecArm1.v'], [], cases, IMPORTS, SPEC_IMPORTS),
+            Unit('arm_groups2', ['C06_' + s for s in ('hmul', 'sat', 'sync', 'xlsu', 'media', 'pas', 'pau', 'pack', 'smul', 'misc', 'msr',
+                                                      'uncond', 'cop', 'dpr', 'rsr', 'xls', 'dp_misc_routing')],
+                 ['Proofs/Cube.v', 'Proofs/DecodeReify.v', 'Proofs/DecArm2.v'], [], a2_cases, IMPORTS,
+                 SPEC_IMPORTS + '\nFrom ArmV Require Import Spec.DecTablesA2.\nFrom Gen Require Import decoders.'),
             Unit('operands', [], [], [], operand_cases, OP_IMPORTS, OP_SPEC_IMPORTS)]
